@@ -539,7 +539,7 @@ Section ToTree.
     pose proof (reaches_chars root id a' ty Hok Hr) as Hch.
     apply tree_exactly_one_leaf.
     - unfold root_ok. split; [exact Htree|]. cbn [strip Z.eqb Pos.eqb].
-      split; (eapply Forall_impl; [|exact Hch]; intros c Hc; apply Hc).
+      split; (eapply Forall_impl; [|exact Hch]; intros c Hc; unfold achar in Hc; lia).
     - cbn [strip Z.eqb Pos.eqb]. apply reaches_addressed; assumption.
   Qed.
 End ToTree.
